@@ -1025,8 +1025,14 @@ func (w *world) genCase(r *rng.R, kind int, maxOps int) caseRec {
 		}
 		bootOp := func() bool {
 			if heldT >= 0 {
-				// a winner's answer is on its way back: other requests are handled completely in that window
-				switch r.Pick(40, 20, 10, 15, 15) {
+				// a winner's answer is on its way back: other requests are handled completely in that window, the
+				// leadership may change (reload) or be given up (stop)
+				switch r.Pick(36, 18, 9, 12, 12, 8, 5) {
+				case 5:
+					// the leadership changes hands in the window: the new term loads the cluster the transaction has stored
+					w.step(&c, op{K: "reload"})
+				case 6:
+					w.step(&c, op{K: "stop"})
 				case 0:
 					w.step(&c, op{K: "finish", T: heldT})
 				case 1:
@@ -1157,6 +1163,12 @@ func directed(handlers []string) [][]op {
 		// the cluster A bootstrapped, A's first region included
 		{{K: "begin", T: 0, PK: "valid"}, {K: "commit", T: 0}, {K: "isboot"}, {K: "boot", T: 1, PK: "valid"}, {K: "isboot"}, {K: "served"},
 			{K: "finish", T: 0}, {K: "served"}, {K: "isboot"}, {K: "reload"}, {K: "served"}},
+		// a leader change inside that window: the new term finds the record and loads the cluster before the winner has saved
+		// its region and started it; the winner is still the one request answered OK, the records are its records, later
+		// requests are refused (what the leader SERVES then is outside C20: see notes, "leader change inside the window")
+		{{K: "begin", T: 0, PK: "valid"}, {K: "begin", T: 1, PK: "valid"}, {K: "commit", T: 0}, {K: "reload"}, {K: "isboot"}, {K: "boot", T: 2, PK: "valid"}, {K: "finish", T: 0}, {K: "isboot"},
+			{K: "finish", T: 1}, {K: "stream", H: "RegionHeartbeat", HS: []string{"", "wrong"}}, {K: "reload"}, {K: "isboot"}},
+		{{K: "begin", T: 0, PK: "valid"}, {K: "commit", T: 0}, {K: "reload"}, {K: "stop"}, {K: "isboot"}, {K: "finish", T: 0}, {K: "isboot"}, {K: "boot", T: 1, PK: "valid"}},
 		// etcd takes 4 s over the bootstrap transaction (a stalled disk) and applies it: the request waits for it (10 s,
 		// kv.requestTimeout) and is answered OK; a second request behind it loses
 		{{K: "begin", T: 0, PK: "valid"}, {K: "begin", T: 1, PK: "valid"}, {K: "finishslow", T: 0, Ms: 4000}, {K: "isboot"}, {K: "finishslow", T: 1, Ms: 300}, {K: "isboot"}},
